@@ -1,44 +1,72 @@
-// Package verifrt: nondeterministic inputs and assertions for verification harnesses.
-// The symbolic engine intercepts every function here; the bodies are the native twin,
-// which replays a recorded model (VERIF_REPLAY=<file>, JSON list in nondet-call order).
+// Package verifrt: nondeterministic inputs, assumptions and assertions for verification
+// harnesses. The symbolic engine (gosym) intercepts every exported function of this package;
+// the bodies below are the NATIVE TWIN: compiled with `go test -tags verif -overlay ...` they
+// replay a recorded solver model (a JSON list with one record per nondet call, in call order)
+// against the natively compiled real code.
 package verifrt
 
 import (
-	"database/sql"
 	"crypto/hmac"
 	"crypto/sha256"
+	"database/sql"
 	"encoding/json"
 	"fmt"
 	"os"
+	"path/filepath"
+	"sort"
+	"strings"
+	"testing"
 	"time"
 )
 
-type rec struct {
+type Rec struct {
 	K string `json:"k"`
 	L string `json:"l"`
 	V int64  `json:"v"`
 	B []int  `json:"b,omitempty"`
 }
 
+type AssertRec struct {
+	Label string `json:"label"`
+	OK    bool   `json:"ok"`
+}
+
+type ObsRec struct {
+	Label string  `json:"label"`
+	V     []int64 `json:"v"`
+}
+
+// ReplayFile is what gosym writes for the native twin.
+type ReplayFile struct {
+	Harness  string `json:"harness"`
+	Tier     string `json:"tier"`
+	Script   []Rec  `json:"script"`
+	Kind     string `json:"kind,omitempty"`
+	Label    string `json:"label,omitempty"`
+	Expect   *Outcome `json:"expect,omitempty"`
+}
+
+// Outcome is what one run of a harness produced.
+type Outcome struct {
+	Asserts  []AssertRec `json:"asserts"`
+	Observes []ObsRec    `json:"observes"`
+	Covers   []string    `json:"covers,omitempty"`
+	Failed   string      `json:"failed,omitempty"` // label of the first failing assertion
+	Panic    string      `json:"panic,omitempty"`
+	AssumeViolated bool  `json:"assume_violated,omitempty"`
+}
+
 var (
-	script []rec
-	pos    int
-	loaded bool
+	script   []Rec
+	pos      int
+	thorough bool
+	out      *Outcome
 )
 
-func next(kind, label string) rec {
-	if !loaded {
-		loaded = true
-		if p := os.Getenv("VERIF_REPLAY"); p != "" {
-			b, err := os.ReadFile(p)
-			if err != nil {
-				panic(err)
-			}
-			if err := json.Unmarshal(b, &script); err != nil {
-				panic(err)
-			}
-		}
-	}
+type assertFailed struct{ label string }
+type AssumptionViolated struct{}
+
+func next(kind, label string) Rec {
 	if pos >= len(script) {
 		panic(fmt.Sprintf("verifrt: replay script exhausted at %s(%q)", kind, label))
 	}
@@ -50,13 +78,67 @@ func next(kind, label string) rec {
 	return r
 }
 
-type AssumptionViolated struct{}
+// RunScript runs fn natively against one recorded script.
+func RunScript(s []Rec, tier string, fn func()) (res Outcome) {
+	script, pos, thorough = s, 0, tier == "thorough"
+	out = &res
+	defer func() {
+		out = nil
+		if r := recover(); r != nil {
+			switch r := r.(type) {
+			case assertFailed:
+				res.Failed = r.label
+			case AssumptionViolated:
+				res.AssumeViolated = true
+			default:
+				res.Panic = fmt.Sprint(r)
+			}
+		}
+	}()
+	fn()
+	return
+}
+
+// RunReplays is called by the generated TestVerifReplay: it runs every replay file in
+// $VERIF_REPLAY_DIR whose harness is in fns and writes <file>.out with the native outcome.
+func RunReplays(t *testing.T, fns map[string]func()) {
+	dir := os.Getenv("VERIF_REPLAY_DIR")
+	if dir == "" {
+		t.Skip("VERIF_REPLAY_DIR not set")
+	}
+	files, _ := filepath.Glob(filepath.Join(dir, "*.json"))
+	sort.Strings(files)
+	for _, f := range files {
+		b, err := os.ReadFile(f)
+		if err != nil {
+			t.Fatal(err)
+		}
+		var rf ReplayFile
+		if err := json.Unmarshal(b, &rf); err != nil {
+			t.Fatalf("%s: %v", f, err)
+		}
+		fn := fns[rf.Harness]
+		if fn == nil {
+			continue
+		}
+		res := RunScript(rf.Script, rf.Tier, fn)
+		ob, _ := json.Marshal(res)
+		if err := os.WriteFile(strings.TrimSuffix(f, ".json")+".out", ob, 0o644); err != nil {
+			t.Fatal(err)
+		}
+	}
+}
+
+// Thorough reports whether the thorough tier's bounds are in force (concrete in both worlds).
+func Thorough() bool { return thorough }
 
 func Int(label string) int           { return int(next("int", label).V) }
 func Int64(label string) int64       { return next("int64", label).V }
 func Byte(label string) byte         { return byte(next("byte", label).V) }
 func Bool(label string) bool         { return next("bool", label).V != 0 }
 func Choose(label string, n int) int { return int(next("choose", label).V) }
+
+// String returns an arbitrary string of length 0..max (every byte value).
 func String(label string, max int) string {
 	r := next("string", label)
 	b := make([]byte, len(r.B))
@@ -65,19 +147,107 @@ func String(label string, max int) string {
 	}
 	return string(b)
 }
-func StringN(label string, n int) string  { return String(label, n) }
+
+// StringN returns an arbitrary string of exactly n bytes.
+func StringN(label string, n int) string { return String(label, n) }
+
+// Bytes / BytesN: like String/StringN for []byte.
+func Bytes(label string, max int) []byte { return []byte(String(label, max)) }
+func BytesN(label string, n int) []byte  { return []byte(String(label, n)) }
+
+// Time returns an arbitrary instant in [1970, ~2116]; Duration an arbitrary duration in (-2^62, 2^61).
 func Time(label string) time.Time         { return time.Unix(0, next("time", label).V).UTC() }
 func Duration(label string) time.Duration { return time.Duration(next("duration", label).V) }
+
 func Assume(c bool) {
 	if !c {
 		panic(AssumptionViolated{})
 	}
 }
+
+// Assert records the outcome; a failing assertion ends the native run.
 func Assert(label string, c bool) {
+	if out != nil {
+		out.Asserts = append(out.Asserts, AssertRec{label, c})
+	}
 	if !c {
-		panic("VERIF-ASSERT-FAILED " + label)
+		panic(assertFailed{label})
 	}
 }
+
+// Cover marks a point every harness run is expected to be able to reach (vacuity guard).
+func Cover(label string) {
+	if out != nil {
+		out.Covers = append(out.Covers, label)
+	}
+}
+
+// KnownFinding declares the discriminator of a recorded finding for the rest of the path.
+func KnownFinding(id string, cond bool) {}
+
+// Observe records a value for translator validation: the interpreter's prediction under the
+// witness model must equal what the native run computes.
+func Observe(label string, v any) {
+	if out == nil {
+		return
+	}
+	out.Observes = append(out.Observes, ObsRec{label, flatten(v)})
+}
+
+func flatten(v any) []int64 {
+	switch x := v.(type) {
+	case bool:
+		if x {
+			return []int64{1}
+		}
+		return []int64{0}
+	case int:
+		return []int64{int64(x)}
+	case int64:
+		return []int64{x}
+	case int32:
+		return []int64{int64(x)}
+	case uint8:
+		return []int64{int64(x)}
+	case uint64:
+		return []int64{int64(x)}
+	case uint32:
+		return []int64{int64(x)}
+	case time.Duration:
+		return []int64{int64(x)}
+	case string:
+		o := make([]int64, 0, len(x)+1)
+		o = append(o, int64(len(x)))
+		for i := 0; i < len(x); i++ {
+			o = append(o, int64(x[i]))
+		}
+		return o
+	case []byte:
+		return flatten(string(x))
+	case time.Time:
+		if x.IsZero() {
+			return []int64{0, 0}
+		}
+		return []int64{1, x.UnixNano()}
+	case error:
+		if x == nil {
+			return []int64{0}
+		}
+		return []int64{1}
+	case nil:
+		return []int64{0}
+	}
+	panic(fmt.Sprintf("verifrt.Observe: unsupported type %T", v))
+}
+
+// Event / Trace: harness-visible event log (the engine also appends stub events).
+var events []string
+
+func Event(name string)  { events = append(events, name) }
+func Trace() []string    { return events }
+func ResetTrace()        { events = nil }
+
+// ---- crypto as uninterpreted functions (engine) / real crypto (native) ----
 
 // HMACModel stands in for crypto/hmac's hash.Hash; the engine maps hmac.New to it
 // and treats HMACSHA256 / SHA256 as uninterpreted functions.
@@ -103,23 +273,21 @@ func HMACSHA256(key, msg []byte) (out [32]byte) {
 }
 func SHA256(data []byte) (out [32]byte) { return sha256.Sum256(data) }
 
-func IntMode()                                  {}
-func Float01(label string) float64              { return float64(next("float", label).V) / (1 << 53) }
+// ---- int/real mode (float obligations) ----
+
+func IntMode()                                     {}
+func Float01(label string) float64                 { return float64(next("float", label).V) / (1 << 53) }
 func FloatIn(label string, lo, hi float64) float64 { return lo }
+func ExactBegin()                                  {}
+func ExactEnd()                                    {}
 
-func ExactBegin() {}
-func ExactEnd()   {}
+// ---- engine-only facilities (harnesses that use them replay in the interpreter) ----
 
-// database/sql stubs (symbolic mode only in the spike).
 type SQLResult struct{ N int64 }
 
 func (r SQLResult) LastInsertId() (int64, error) { return 0, nil }
 func (r SQLResult) RowsAffected() (int64, error) { return r.N, nil }
-func StubDB() *sql.DB                            { return nil }
-func Trace() []string                            { return nil }
-
-func Pending(steps ...func()) {}
-
-func SQLModel() {}
-
-func Replace(fn any, with any) {}
+func StubDB() *sql.DB                            { panic("verifrt.StubDB: engine only") }
+func Pending(steps ...func())                    { panic("verifrt.Pending: engine only") }
+func SQLModel()                                  { panic("verifrt.SQLModel: engine only") }
+func Replace(fn any, with any)                   { panic("verifrt.Replace: engine only") }
